@@ -162,8 +162,8 @@ func (t *Tester) run(testFile string) (*TestResult, error) {
 					d := NewDebugger()
 					i.Debugger = d
 
-					// Skip this testsuite when marked as @skip or @tag matched
-					if metadata.Skip || metadata.MatchTags(t.config.Tags) {
+					// Skip this testsuite when marked as @skip or @tag is specified and does not match
+					if metadata.Skip || (len(metadata.Tags) > 0 && !metadata.MatchTags(t.config.Tags)) {
 						cases = append(cases, &TestCase{
 							Name:  metadata.Name,
 							Scope: s.String(),
@@ -246,8 +246,8 @@ func (t *Tester) runDescribedTests(
 			debugger := NewDebugger()
 			i.Debugger = debugger
 
-			// Skip this testsuite when marked as @skip or @tag matched
-			if metadata.Skip || metadata.MatchTags(t.config.Tags) {
+			// Skip this testsuite when marked as @skip or @tag is specified and does not match
+			if metadata.Skip || (len(metadata.Tags) > 0 && !metadata.MatchTags(t.config.Tags)) {
 				cases = append(cases, &TestCase{
 					Name:  metadata.Name,
 					Scope: s.String(),
